@@ -181,7 +181,7 @@ class Spec(core.PropSpec):
         mode = gen_mode(rw, stack)
         K = ro.choice([1, 2, 2, 3])
         ops = []
-        for _ in range(ro.randint(2, 14)):
+        for _ in range(ro.randint(2, 14 if tier == "quick" else 40)):
             r = ro.random()
             w = ro.randrange(K)
             if r < 0.4:
